@@ -10,7 +10,7 @@ namespace HvLat
 
 /-- syntactic check: the order of the type is total (what `DomPair` needs of its key) -/
 def total : LTy → Bool
-  | .maxN _ | .minN _ | .maxB | .minB | .unit => true
+  | .maxN _ | .minN _ | .maxI _ | .minI _ | .maxB | .minB | .unit => true
   | .withBot t => total t
   | .withTop t => total t
   | .domPair k v => total k && total v
@@ -20,6 +20,8 @@ def total : LTy → Bool
 def nondeg : LTy → Bool
   | .maxN b => decide (0 < b)
   | .minN b => decide (0 < b)
+  | .maxI _ => true
+  | .minI _ => true
   | .maxB => true
   | .minB => true
   | .unit => false
